@@ -107,7 +107,7 @@ def optimal(
         for iitem in iitems
     }  # counts[i][j] is a variable that represents how many times item i appears in bin j.
     bin_sums = [
-        sum([counts[iitem][ibin] * binner.valueof(items[iitem]) for iitem in iitems])/weights[ibin] 
+        sum([counts[iitem][ibin] * float(binner.valueof(items[iitem])) for iitem in iitems])/weights[ibin] 
         for ibin in ibins
     ]  # bin_sums[j] is a variable-expression that represents the sum of values in bin j.
 
